@@ -366,6 +366,9 @@ Proof.
   f_equal. destruct (c_scoped cmd); reflexivity.
 Qed.
 
+Lemma f_type_facts_at rd cfg cmd nerr id : f_type (facts_at rd cfg cmd nerr id) = classify (c_type cmd).
+Proof. reflexivity. Qed.
+
 Lemma group_outcome_is_batch1 rd cfg c : batched_group c = true ->
   group_outcome rd cfg c = batch_outcome1 rd cfg c.
 Proof.
@@ -374,7 +377,7 @@ Proof.
   unfold batch_out, facts_batch. rewrite Ht. change (channelTypeGroup =? channelTypePerson) with false.
   cbv iota. f_equal. unfold decide_batch. rewrite batchable_facts_at.
   unfold batched_group in H. apply andb_true_iff in H. destruct H as [-> _].
-  unfold facts_at at 1. cbn [f_type]. rewrite Ht, classify_group. reflexivity.
+  rewrite f_type_facts_at, Ht, classify_group. reflexivity.
 Qed.
 
 Lemma person_outcome_is_batch1 rd cfg c : batched_person c = true ->
@@ -385,7 +388,7 @@ Proof.
   unfold facts_batch. rewrite Ht, N.eqb_refl. f_equal.
   unfold decide_batch. rewrite batchable_facts_at.
   unfold batched_person in H. apply andb_true_iff in H. destruct H as [-> _].
-  unfold facts_at at 1. cbn [f_type]. rewrite Ht, classify_person. reflexivity.
+  rewrite f_type_facts_at, Ht, classify_person. reflexivity.
 Qed.
 
 (* a SendBatch of any length and content decides every item as if it were alone *)
